@@ -33,6 +33,7 @@ _REAL = {
     "os.rmdir": os.rmdir,
     "os.link": os.link,
     "os.symlink": os.symlink,
+    "os.stat": os.stat,
 }
 
 
@@ -456,6 +457,18 @@ class SimDisk:
             self.journal.append(("RMDIR", rel))
         return out
 
+    def _w_stat(self, path, *, dir_fd=None, follow_symlinks=True):
+        # existence checks (Path.exists) are observation points: another
+        # process may run between the check and the open that follows it
+        if self.hook_reads and self.hook is not None and self._on() and not isinstance(path, int):
+            rel = self._rel(path, dir_fd)
+            if rel:
+                try:
+                    self._hook("STAT", rel)
+                except InjectIOError as e:
+                    raise OSError(e.err, os.strerror(e.err)) from None
+        return _REAL["os.stat"](path, dir_fd=dir_fd, follow_symlinks=follow_symlinks)
+
     def _w_unmodelled(self, name):
         real = _REAL[name]
 
@@ -485,6 +498,7 @@ class SimDisk:
         os.fdatasync = self._w_fsync_like("os.fdatasync")
         os.mkdir = self._w_mkdir
         os.rmdir = self._w_rmdir
+        os.stat = self._w_stat
         os.link = self._w_unmodelled("os.link")
         os.symlink = self._w_unmodelled("os.symlink")
         self.active = True
